@@ -2503,6 +2503,66 @@ def site_insert_if_absent_exclusive(fns):
     return ob.result(it, witness="c07_cas_and_patch_semantics+c13_memory_limit_model")
 
 
+def site_failed_batch_outcome(fns):
+    f = mir.find(fns, "failed_batch_outcome", None)
+    ob = Ob("site_failed_batch_outcome", "write_buffer::failed_batch_outcome, every path: after an INDETERMINATE failure (the device may still complete the writes) the batch's allocations are "
+            "quarantined and nothing is cleaned up, released or written; after a definite failure cleanup_failed_allocations runs with the caller's clear_journal flag and, if the cleanup itself "
+            "fails, the allocations are quarantined and the device is poisoned; the outcome is always Err, and the retry list receives EVERY prepared write's entry and every deferred delete – "
+            "no accepted operation is dropped because its batch failed", "all paths", f)
+    it = Interp(f, loop_bound=1, pure=PURE, max_paths=4000)
+    pw = mir.find(fns, "::process_write_batch", None)
+    agg = re.search(r"= BatchFailure \{ ([^}]*) \}", pw.text)
+    bf = [x.split(":")[0].strip() for x in agg.group(1).split(", ")] if agg else []
+    if "indeterminate" not in bf or "clear_journal" not in bf:
+        raise mir.MirError("BatchFailure fields not found")
+    failure = z3.Const("failure", U)
+    indet = it.ctx.uf("proj__%d" % bf.index("indeterminate"), [U], z3.BoolSort())(failure)
+    clearj = it.ctx.uf("proj__%d" % bf.index("clear_journal"), [U], z3.BoolSort())(failure)
+    farg = f.args[-1]
+
+    def init(it_, st):
+        st["env"][farg] = failure
+    ind_n = def_n = 0
+    for p in it.run(init):
+        ob.paths += 1
+        if p.status != "return":
+            continue
+        q = events(p, "quarantine_allocations")
+        cl = events(p, "cleanup_failed_allocations")
+        po = events(p, "DiskIO::poison_writes")
+        ex = [e for e in p.events if e.kind == "call" and e.callee.endswith("::extend")]
+        ob.must_hold(len(ex) == 2, "the retry list is extended twice: prepared writes, then deferred deletes")
+        dr = [e for e in p.events if e.kind == "call" and e.callee.endswith("::drain")]
+        ob.must_hold(len(dr) == 1 and z3.is_expr(dr[0].args[0]) and z3.eq(it.as_u(dr[0].args[0]), it.as_u(p.env.get("_3")) if "_3" in p.env else it.as_u(dr[0].args[0])),
+                     "all prepared writes are drained into the retry list")
+        if ex and len(ex) == 2:
+            ob.must_hold(z3.eq(it.as_u(ex[0].args[0]), it.as_u(ex[1].args[0])), "both extensions feed the same retry list")
+        if not cl:
+            ind_n += 1
+            ob.need(it, p.pc, indet, "the cleanup is skipped only for an indeterminate failure")
+            ob.must_hold(len(q) == 1 and not po, "without a cleanup the allocations are quarantined (indeterminate failure)")
+            ob.must_hold(not events(p, "release_allocations") and not events(p, "release_scrubbed_allocations") and not [e for e in p.events if e.kind == "call" and "DiskIO::" in e.callee],
+                         "an indeterminate failure releases nothing and issues no device call")
+        else:
+            def_n += 1
+            ob.need(it, cl[0].pc, z3.Not(indet), "cleanup (device writes, releases) runs only after a definite failure")
+            ob.need(it, cl[0].pc, cl[0].args[-1] == clearj if z3.is_bool(cl[0].args[-1]) else z3.BoolVal(False), "the cleanup clears the journal exactly when the caller says an intent may be on the device")
+            ok_, _ = it.entails(p.pc, it.ctx.disc(it.as_u(cl[0].ret)) == 0)
+            er_, _ = it.entails(p.pc, it.ctx.disc(it.as_u(cl[0].ret)) != 0)
+            if ok_:
+                ob.must_hold(not q and not po, "a successful cleanup needs no quarantine and does not poison the device")
+            elif er_:
+                ob.must_hold(len(q) == 1 and len(po) == 1 and idx_of(p, cl[0]) < idx_of(p, q[0]) < idx_of(p, po[0]), "a failed cleanup quarantines the allocations and poisons the device")
+            else:
+                ob.must_hold(False, "cleanup result decided on the path")
+        if p.ret is not None:
+            t = it.ctx.tups.get(str(it.as_u(p.ret))) if not isinstance(p.ret, mir.Tup) else p.ret
+            if isinstance(t, mir.Tup) and t.fields and z3.is_expr(t.fields[0]):
+                ob.need(it, p.pc, it.ctx.disc(it.as_u(t.fields[0])) != 0, "the outcome's result is Err")
+    ob.must_hold(ind_n >= 1 and def_n >= 2, "indeterminate and definite failure paths were reached (%d/%d)" % (ind_n, def_n))
+    return ob.result(it, witness="c09_failed_batch_keeps_rest_of_shard")
+
+
 # ============================================================================ C19: which worker owns which shard
 def c19(fns, tier, env):
     return finalize([site_shard_ownership(fns), site_coordinator_liveness(fns), site_flush_worker_requeue(fns)], env)
@@ -3163,7 +3223,7 @@ def c02(fns, tier, env):
 
 
 def c09(fns, tier, env):
-    return finalize([kernel_poison(fns), site_force_flush(fns), site_flush_worker_requeue(fns), site_process_deletions(fns), site_write_batch_protocol(fns), site_write_batch_allocation(fns), site_retire_extents(fns),
+    return finalize([kernel_poison(fns), site_force_flush(fns), site_flush_worker_requeue(fns), site_process_deletions(fns), site_write_batch_protocol(fns), site_write_batch_allocation(fns), site_failed_batch_outcome(fns), site_retire_extents(fns),
                      site_journal_write(fns, "write_allocation_journal"), site_journal_write(fns, "clear_allocation_journal")], env)
 
 
